@@ -101,9 +101,8 @@ def run_check_scratch(mdir, pid, tier):
     finally:
         sh(["git", "-C", REPO, "worktree", "remove", "--force", wt])
         shutil.rmtree(wt, ignore_errors=True)
-        for d in os.listdir(os.path.join(ROOT, ".build")):
-            if d.startswith("alt-"):
-                shutil.rmtree(os.path.join(ROOT, ".build", d), ignore_errors=True)
+        import hashlib  # only this run's build directory (other sensitivity runs may be in progress)
+        shutil.rmtree(os.path.join(ROOT, ".build", "alt-" + hashlib.sha1(wt.encode()).hexdigest()[:10]), ignore_errors=True)
 
 
 def run_check(mdir, pid, tier):
